@@ -51,6 +51,7 @@ type loopRun struct {
 }
 
 type modTarget struct {
+	iface string // non-empty: abstract state of this interface type (token), no heap region
 	heap bool // object heap (else array heap)
 	typ  types.Type // pointee / element type
 	sort string // heap key; "map:<type>" for maps
@@ -468,6 +469,9 @@ func (x *executor) verify(key string) (err error) {
 		ev2.st = x.entry
 		x.recursionMeasure = ev2.toInt(ev2.eval(x.fc.decreases.e))
 	}
+	for _, cl := range x.fc.assumed {
+		x.note("assumed (not checked on the body) postcondition of " + key + ": " + cl.text)
+	}
 	// vacuity guard: the precondition must be satisfiable
 	cov := x.oblige(m, "cover", "requires", tFalse, nil, "precondition satisfiable")
 	cov.expectSat = true
@@ -527,6 +531,8 @@ func (x *executor) modTargetOf(ev *evaluator, e Expr) modTarget {
 		return modTarget{heap: true, typ: u.Elem(), sort: heapKey(u.Elem()), ref: p.ref}
 	case *types.Map:
 		return modTarget{heap: true, sort: "map:" + typeKey(v.typ), ref: v.t}
+	case *types.Interface:
+		return modTarget{iface: typeKeyShort(v.typ)}
 	}
 	ev.fail("modifies target %s must be a slice, map or pointer", exprString(e))
 	return modTarget{}
@@ -717,6 +723,10 @@ func (c *ctx) valueWF(v *T, t types.Type) *T {
 
 func (x *executor) havocTarget(st *state, mt modTarget) {
 	c := x.c
+	if mt.iface != "" {
+		x.refreshToken(st, mt.iface)
+		return
+	}
 	if strings.HasPrefix(mt.sort, "map:") {
 		x.havocMap(st, mt)
 		return
